@@ -1,4 +1,5 @@
 """C01: rendering is repeatable and independent of history (EngineLife.tla)."""
+import hashlib
 import json
 import os
 import subprocess
@@ -23,7 +24,7 @@ def compute_oracle(harness, header_line, keys):
     return dict(zip(keys, results))
 
 
-def run_histories(harness, scratch, header_line, case_lines, oracle_path, nworkers=V.NCPU, tag="h"):
+def run_histories(harness, scratch, header_line, case_lines, oracle_path, nworkers=V.NCPU, tag="h", pool_path=None):
     shares = [case_lines[i::nworkers] for i in range(nworkers)]
     procs = []
     for i, share in enumerate(shares):
@@ -35,7 +36,10 @@ def run_histories(harness, scratch, header_line, case_lines, oracle_path, nworke
             f.writelines(l if l.endswith("\n") else l + "\n" for l in share)
         outp = scratch.path("%s-out-%d.ndjson" % (tag, i))
         fo = open(outp, "w")
-        p = subprocess.Popen([harness, "history", "-oracle", oracle_path], stdin=open(inp), stdout=fo, stderr=subprocess.PIPE)
+        env = dict(os.environ)
+        if pool_path:
+            env["VERIF_POOL_TRACE"] = outp + ".pool"     # traffic of the render-context pools (Trace_Pool.tla)
+        p = subprocess.Popen([harness, "history", "-oracle", oracle_path], stdin=open(inp), stdout=fo, stderr=subprocess.PIPE, env=env)
         procs.append((i, share, p, fo, outp))
     results = []
     for (i, share, p, fo, outp) in procs:
@@ -43,6 +47,11 @@ def run_histories(harness, scratch, header_line, case_lines, oracle_path, nworke
         fo.close()
         with open(outp) as f:
             got = [json.loads(l) for l in f if l.strip()]
+        if pool_path and os.path.exists(outp + ".pool"):
+            import shutil
+            with open(outp + ".pool") as fsrc, open(pool_path, "a") as fdst:
+                shutil.copyfileobj(fsrc, fdst)
+            os.unlink(outp + ".pool")
         if p.returncode != 0:
             msg = err.decode(errors="replace")
             if msg.startswith("harness:") or len(got) >= len(share):
@@ -125,8 +134,30 @@ def run(prop, tier, seed, opts):
         import random
         rnd = random.Random(seed)
         rnd.shuffle(case_lines)
-        results, shares = run_histories(harness, scratch, header_line, case_lines, oracle_path)
+        pool_path = scratch.path("pool.ndjson")
+        results, shares = run_histories(harness, scratch, header_line, case_lines, oracle_path, pool_path=pool_path)
         failing = [r for r in results if not r["pass"]]
+        # the traffic of the render-context pools during all those histories, against PoolDiscipline (the pools are what
+        # carries state from one render to the next)
+        import check as CK
+        pool_info, pool_bad = CK.check_pool_trace(scratch, pool_path, "histories", tier == "thorough" or opts.get("selftest"))
+        by_digest = {}
+        for i, share in enumerate(shares):
+            for l in share:
+                by_digest[hashlib.sha1((json.loads(l).get("key") or "").encode()).hexdigest()[:16]] = (i, l)
+        for b in pool_bad[:10]:
+            hit = by_digest.get(b["case"])
+            upto = []
+            if hit:
+                share = shares[hit[0]]
+                upto = share[: share.index(hit[1]) + 1]
+            os.makedirs(V.REPLAYS, exist_ok=True)
+            path = os.path.join(V.REPLAYS, "C01-pool-%s.json" % hashlib.sha1(json.dumps(b, sort_keys=True).encode()).hexdigest()[:12])
+            with open(path, "w") as f:
+                json.dump({"property": "C01", "pool_event": b, "trace_spec": "Trace_Pool", "header": json.loads(header_line),
+                           "histories": [json.loads(x) for x in upto]}, f)
+            violations.append("VIOLATION property=C01 replay=%s" % path)
+            V.log("  pool discipline broken: %s (event %s)" % (b["why"], json.dumps(b["event"])))
         confirmed = 0
         for r in failing:
             if confirmed >= 10:
@@ -148,7 +179,6 @@ def run(prop, tier, seed, opts):
                 obs = alone[0]
             confirmed += 1
             os.makedirs(V.REPLAYS, exist_ok=True)
-            import hashlib
             path = os.path.join(V.REPLAYS, "C01-%s.json" % hashlib.sha1(r["_line"].encode()).hexdigest()[:12])
             with open(path, "w") as f:
                 json.dump({"property": "C01", "header": json.loads(header_line), "histories": [json.loads(x) for x in replay_lines],
@@ -188,10 +218,11 @@ def run(prop, tier, seed, opts):
                         "import / sandboxed include, x 2 sources on the second engine) followed by every sequence of 2 (3) renders or GCs over "
                         "registered, array-loader and two-path file-system-loader names; every render "
                         "is compared with the pristine result of its key (same templates+configuration on a fresh engine in a fresh "
-                        "process); all histories are non-trivial (>= 1 render after other activity)",
+                        "process); all histories are non-trivial (>= 1 render after other activity); the Get / Put traffic of the render-context "
+                        "pools during all histories is validated against PoolDiscipline (Trace_Pool.tla)",
                    samples=samples, oracle_keys=len(keys), histories=len(results), failing=len(failing),
                    exhaustive_histories=n_exhaustive, random_walk_histories=n_walk_histories,
-                   deviation_check=dev_info, exhaustive=False,
+                   deviation_check=dev_info, exhaustive=False, pool_trace=pool_info,
                    tlc=dict(cfg=cfg, properties=["RenderPure", "FailedOpsPure", "NoStaleRender"], wall_s=round(res["wall"], 1)))
         V.write_evidence(prop, tier, seed, "model_checking", cov, wall, len(violations),
                          ["EngineLife.tla: rendering is an uninterpreted function of the logical state (key)",
